@@ -209,6 +209,9 @@ type Parser interface {
 	Parse(types []int, rec *Recorder, ctxMode int, maxScans int) Result
 	// ParseSrc runs Parse with the real generated lexer on src.
 	ParseSrc(src []byte, rec *Recorder) Result
+	// ParseSrcCtx: the real lexer on src with a source context of the given name; the parser's own Context field is
+	// left nil (actions then log into rt.Default, which the caller sets).
+	ParseSrcCtx(src []byte, rec *Recorder, name string) Result
 }
 
 // Tables are the parser tables as the compiled program sees them after init().
@@ -234,11 +237,11 @@ type Impl struct {
 	TokType       func(id string) int
 	NewParser     func() Parser
 	Tables        func() *Tables
-	ScanKeep      func(src []byte) func() []Token          // see the adapter: token objects kept, rendered on demand
-	LexFile       func(path string) (string, error)         // NewLexerFile(path): every token with Pos.String()
-	TokenAPI      func(typ int, lit string) string // results of the token package's accessors on a fresh token
-	ErrorString   func(errObj any) string          // err.Error() of the raw error value
-	ErrorExpected func(errObj any) []string        // a copy of the ExpectedTokens field of the raw error value (nil if it is not a parser error)
+	ScanKeep      func(src []byte) func() []Token   // see the adapter: token objects kept, rendered on demand
+	LexFile       func(path string) (string, error) // NewLexerFile(path): every token with Pos.String()
+	TokenAPI      func(typ int, lit string) string  // results of the token package's accessors on a fresh token
+	ErrorString   func(errObj any) string           // err.Error() of the raw error value
+	ErrorExpected func(errObj any) []string         // a copy of the ExpectedTokens field of the raw error value (nil if it is not a parser error)
 }
 
 var (
